@@ -38,6 +38,25 @@ def codes():
     return ({a: i for i, a in enumerate(acts)}, {f: i for i, f in enumerate(flags)}, hps)
 
 
+def all_codes():
+    """name -> code tables for terms of the skeleton language (numbering read off M_flow.v, as M_flowrun.v has it)"""
+    text = open(os.path.join(core.COQ, 'Model', 'M_flow.v')).read()
+    acode, fcode, _ = codes()
+    return {'action': acode, 'flag': fcode,
+            'fname': {f: i for i, f in enumerate(_ctors(text, 'fname'))},
+            'pat': {p: i for i, p in enumerate(_ctors(text, 'pat'))},
+            'exn': {'X' + k: v for k, v in EXN.items()}}
+
+
+FN_OF = {'request_run': ['F_request_run'], 'respond': ['F_respond'], 'do_respond': ['F_do_respond'],
+         'handle_error': ['F_handle_error'], 'request_close': ['F_request_close', 'F_ir_request_close'],
+         'get_serving': ['F_get_serving'], 'release_serving': ['F_release_serving'],
+         'appresponse_init': ['F_appresponse_init'], 'appresponse_close': ['F_appresponse_close'],
+         'appresponse_close_init': ['F_appresponse_close_init'], 'appresponse_run': ['F_appresponse_run'],
+         'redirector_call': ['F_redirector_call'], 'trap': ['F_trap_init', 'F_trap_next'],
+         'trapped_init': ['F_trapped_init'], 'trapped_next': ['F_trapped_next'], 'trapped_close': ['F_trapped_close']}
+
+
 POINT_COQ = dict(zip(HOOKPOINTS, ['OnStartResource', 'BeforeRequestBody', 'BeforeHandler', 'BeforeFinalize',
                                   'OnEndResource', 'OnEndRequest', 'BeforeErrorResponse', 'AfterErrorResponse']))
 
@@ -442,27 +461,43 @@ class FlowCheck(core.Check):
         import logging
         logging.lastResort = self._last_resort
 
-    # ---- G: regenerate the skeletons from the sources and tie them to the hand-written ones -------
+    # ---- G: regenerate the skeletons from the sources; re-establish the theorems for them; compare with the
+    #         hand-written reference skeletons -------------------------------------------------------------
     def ties(self):
+        self.prog_sx = []
         text, unknown = pyflow.generate(core.REPO)
+        gen_obs, gen_ok = self.regenerated_theorems(text)
         lines = [text, 'From CV Require Import Model.M_pipeline.']
         for name, _, _ in pyflow.FUNCTIONS:
             lines.append('Lemma tie_%s : G_%s = sk_%s.\nProof. reflexivity. Qed.' % (name, name, name))
         obs = []
         ok, out = core.coq_check_text('Tie_flow_%s' % self.pid, '\n'.join(lines) + '\n')
+        results = {}
         if ok:
-            for name, rel, q in pyflow.FUNCTIONS:
-                obs.append(core.Obligation('tie_%s: skeleton of %s regenerated from %s equals M_pipeline.sk_%s'
-                                           % (name, q, rel, name), True))
+            results = {name: (True, '') for name, _, _ in pyflow.FUNCTIONS}
         else:
-            # find which ones fail, one by one
             for name, rel, q in pyflow.FUNCTIONS:
                 one = [text, 'From CV Require Import Model.M_pipeline.',
                        'Lemma tie_%s : G_%s = sk_%s.\nProof. reflexivity. Qed.' % (name, name, name)]
-                ok1, out1 = core.coq_check_text('Tie_flow_%s_%s' % (self.pid, name), '\n'.join(one) + '\n')
+                results[name] = core.coq_check_text('Tie_flow_%s_%s' % (self.pid, name), '\n'.join(one) + '\n')
+        for name, rel, q in pyflow.FUNCTIONS:
+            ok1, out1 = results[name]
+            if ok1:
                 obs.append(core.Obligation('tie_%s: skeleton of %s regenerated from %s equals M_pipeline.sk_%s'
-                                           % (name, q, rel, name), ok1, '' if ok1 else out1))
-        obs += self.regenerated_theorems(text)
+                                           % (name, q, rel, name), True))
+            elif gen_ok:
+                # the source no longer matches the hand-written reference, but every theorem has just been
+                # re-established for the regenerated program, and the correspondence below runs the semantics on
+                # the regenerated program: the reference is out of date, the property is still shown to hold
+                obs.append(core.Obligation(
+                    'skeleton of %s (%s) differs from the hand-written reference sk_%s: superseded - theorems '
+                    're-established for the regenerated program (gen_flow_checks), correspondence run on it'
+                    % (q, rel, name), True, out1[-600:]))
+                self.notes.append('reference skeleton sk_%s is out of date w.r.t. %s:%s' % (name, rel, q))
+            else:
+                obs.append(core.Obligation('tie_%s: skeleton of %s regenerated from %s equals M_pipeline.sk_%s'
+                                           % (name, q, rel, name), False, out1))
+        obs += gen_obs
         self.notes.append('translator: %d statements mapped to the generic may-raise action Other'
                           % sum(len(v) for v in unknown.values()))
         return obs
@@ -487,10 +522,22 @@ class FlowCheck(core.Check):
                  'trapped_next': 'F_trapped_next', 'trapped_close': 'F_trapped_close'}
         arms = ['  | %s => G_%s' % (fn_of[n], n) for n in names if n in fn_of]
         arms += ['  | F_ir_request_close => G_request_close', '  | F_trap_init | F_trap_next => G_trap']
-        lines = [text, 'From CV Require Import Model.M_pipeline Model.M_aflow Proof.P_flow_thm Proof.P_flow_gen.',
+        # the same program as data, for the extracted model: kernel-checked to be enc_prog of the Coq term
+        allc = all_codes()
+        by_code = {}
+        for name, term in pyflow.generate_terms(core.REPO):
+            sxv = pyflow.term_to_sx(term, allc)
+            for f in FN_OF[name]:
+                by_code[allc['fname'][f]] = sxv
+        prog_sx = [[k, by_code[k]] for k in sorted(by_code)]
+        lines = [text, 'From CV Require Import Lib.Sx Model.M_pipeline Model.M_aflow Model.M_flowrun Proof.P_flow_thm '
+                 'Proof.P_flow_gen Proof.P_flow_enc.',
                  'Definition Gprog (f : fname) : stmt :=\n  match f with\n%s\n  end.' % '\n'.join(arms),
                  'Lemma gen_flow_checks : flow_checks Gprog pparam sess_fuel = true.',
-                 'Proof. vm_cast_no_check (eq_refl true). Qed.']
+                 'Proof. vm_cast_no_check (eq_refl true). Qed.',
+                 'Open Scope Z_scope.',
+                 'Lemma enc_ok : enc_prog Gprog = %s.' % sx.to_coq(sx.norm(prog_sx)),
+                 'Proof. vm_compute. reflexivity. Qed.']
         for t in self.GEN_THEOREMS[self.pid]:
             # (a theorem of the section that needs no check keeps only the parameters it uses)
             lines.append('Definition gen_%s := ltac:(first [exact (%s Gprog pparam sess_fuel gen_flow_checks) '
@@ -501,11 +548,22 @@ class FlowCheck(core.Check):
         n = len(self.GEN_THEOREMS[self.pid])
         good = ok and closed == n
         res = [core.Obligation('gen_flow_checks: the skeletons regenerated from %s pass flow_checks (kernel, vm)' % core.REPO,
-                               good, '' if good else out)]
+                               good, '' if good else out),
+               core.Obligation('enc_ok: the program handed to the extracted model is enc_prog of the regenerated Coq '
+                               'terms (and dec_prog (enc_prog p) = p, P_flow_enc)', good, '' if good else 'see gen_flow_checks')]
         for t in self.GEN_THEOREMS[self.pid]:
             res.append(core.Obligation('gen_%s: theorem re-established for the regenerated skeletons' % t, good,
                                        '' if good else 'see gen_flow_checks'))
-        return res
+        if good:
+            self.prog_sx = prog_sx
+        elif 'enc_ok' not in out:
+            # flow_checks failed but the encoding may still be right: run the correspondence on the regenerated
+            # program anyway (the oracle decides what the change breaks)
+            lines2 = [l for l in lines if not l.startswith(('Lemma gen_flow_checks', 'Proof. vm_cast'))][:8]
+            ok2, _ = core.coq_check_text('Enc_flow_%s' % self.pid, '\n'.join(lines2) + '\n', timeout=300)
+            if ok2:
+                self.prog_sx = prog_sx
+        return res, good
 
     # ---- scenarios ------------------------------------------------------------------------------
     def gen_scenario(self, rng, nfaults=None, hooks=True):
@@ -598,7 +656,8 @@ class FlowCheck(core.Check):
                           [[hid, prio, failsafe, EXN.get(beh, 0)] for hid, prio, failsafe, beh in lst]])
         # `new_uri in redirections`: the session starts at '/', every redirect goes to sc['redirect_to']
         vfrom = 1 if sc['redirect_to'] == '/' else 2
-        return [sc['showtb'], rules, [F[f] for f in trues], hooks, vfrom, obs['streaming_closes']]
+        return [sc['showtb'], rules, [F[f] for f in trues], hooks, vfrom, obs['streaming_closes'],
+                getattr(self, 'prog_sx', [])]
 
     def finalize_after_handler(self, obs):
         """occurrence numbers of the finalize() calls that see the page handler's own (non-iterable) return
